@@ -16,6 +16,10 @@ B2  every execution that differs from M, plus a sample of conforming ones, is ev
     rejected => VIOLATION, accepted only through a listed deviation step => KNOWN-FINDING,
     accepted => MODEL-DRIFT note.
 Client and hosted observations of the same well-behaved sequence are also compared with each other.
+Losing the link without an `unlinked` is an input too: "link_lost" how=write (an own write after the output failed:
+hosted WriterFailed -> reconnect -> connect() on fresh channels, or drop) / how=read (input closed); every covering
+path of the state graph ends with a distinguishing suffix ((re)link, sync, one event) so that the replica left behind
+by the last covered transition is observed.
 The IO mode of the downlinks is part of the explored space: the inputs include "drop_handles" (every
 write handle dropped, at any point, also before the first notification) and "out_fail" (the reader of
 the downlink's output channel dropped; later own writes then fail), each seen by the task either on its
@@ -26,13 +30,14 @@ from vlib import core
 from vlib import replay as rp
 
 PROP = "C08"
-INPUT_KEYS = {"k", "key", "val", "n"}
+INPUT_KEYS = {"k", "key", "val", "n", "how"}
 INVS = ["TypeOK", "FoldLawHosted", "FoldLawClient", "UnlinkedHoldsNothing", "ImplsAgree", "SyncedExactlyAtSync",
         "SyncedSeesState", "QuietWhenNotSynced", "TerminatesOnUnlinked", "LegalIffGrammar"]
 PROPS = ["MRefinesP", "EnvStepsInvisible"]
 IMPLS = ("client", "hosted")
 ALL_ACTIONS = ["OnLinked", "OnSynced", "OnUnlinked", "OnUpdate", "OnRemove", "OnClear", "OnTake", "OnDrop",
-               "OnValueEvent", "OnEventEvent", "LocalWrite", "DropHandles", "OutFail", "AfterStop", "IllegalStep", "Chaos"]
+               "OnValueEvent", "OnEventEvent", "LocalWrite", "DropHandles", "OutFail", "LinkLostWrite", "LinkLostRead",
+               "AfterStop", "IllegalStep", "Chaos"]
 BOOLS = {True, False}
 KINDS = {"map", "value", "event"}
 TRACE_NK, TRACE_NV = 3, 3
@@ -47,7 +52,7 @@ def seq_configs(tier):
         return [dict(Kinds=KINDS, EwnsSet=BOOLS, TouSet=BOOLS, NK=2, NV=2, Counts={1}, LocalWrites=False,
                      Illegal=False, EnvFaults=True, MaxLen=4),
                 dict(Kinds={"value", "event"}, EwnsSet=BOOLS, TouSet=BOOLS, NK=1, NV=2, Counts=set(), LocalWrites=True,
-                     Illegal=False, EnvFaults=True, MaxLen=6)]
+                     Illegal=False, EnvFaults=True, MaxLen=5)]
     return [dict(Kinds={"map"}, EwnsSet=BOOLS, TouSet=BOOLS, NK=2, NV=2, Counts={1}, LocalWrites=False,
                  Illegal=False, EnvFaults=True, MaxLen=5),
             dict(Kinds={"map"}, EwnsSet=BOOLS, TouSet={False}, NK=2, NV=2, Counts={1, 2}, LocalWrites=True,
@@ -107,9 +112,11 @@ def make_cases(traces, tag, rng):
 
 
 def well_behaved(case):
-    """value / map downlink, link grammar respected, no own writes, no take / drop."""
+    """value / map downlink, link grammar respected, no own writes, no take / drop; a link lost by closing the input is
+    reported by the hosted downlink (on_unlinked) and not by the client task, so it is excluded as well."""
     return case["cfg"]["kind"] in ("map", "value") and all(
-        a.get("legal", True) and not a["k"].startswith("w_") and a["k"] not in ("take", "drop") for a in case["acts"])
+        a.get("legal", True) and not a["k"].startswith("w_") and a["k"] not in ("take", "drop")
+        and not (a["k"] == "link_lost" and a.get("how") == "read") for a in case["acts"])
 
 
 def expected(act):
@@ -188,6 +195,62 @@ def run_tlc_checked(module, cfg, wd, what):
     return r
 
 
+def g_extend(g, node, n, rng):
+    out = []
+    for _ in range(n):
+        nxt = g.succ.get(node) if node is not None else None
+        if not nxt:
+            break
+        a, node = nxt[rng.randrange(len(nxt))]
+        out.append(a)
+    return out
+
+
+def end_node(g, path):
+    """the node of the state graph a path of edge labels ends in (labels carry cf, so the initial state is determined)."""
+    if not path:
+        return None
+    first = core.canon(path[0])
+    cur = None
+    for i in g.inits:
+        if any(core.canon(a) == first for a, _ in g.succ.get(i, ())):
+            cur = i
+            break
+    for a in path:
+        if cur is None:
+            return None
+        ca = core.canon(a)
+        cur = next((t for b, t in g.succ.get(cur, ()) if core.canon(b) == ca), None)
+    return cur
+
+
+def probe(g, node, steps=3):
+    """A distinguishing suffix: inputs that make the replica reached by a path observable - (re)link, sync, then one
+    event whose callback carries the map / the previous value.  Without it a wrong replica left behind by the last
+    covered transition (e.g. not discarded when the link was lost) would go unnoticed."""
+    out = []
+    for _ in range(steps):
+        if node is None:
+            break
+        st = json.loads(node)[1]
+        edges = g.succ.get(node, ())
+        want = {"U": ("linked",), "L": ("synced", "update", "event"), "S": ("update", "event")}.get(st)
+        if not want:
+            break
+        pick = None
+        for k in want:
+            pick = next(((a, t) for a, t in edges if a.get("k") == k and a.get("legal", True)), None)
+            if pick:
+                break
+        if not pick:
+            break
+        out.append(pick[0])
+        node = pick[1]
+        if st == "S":
+            break
+    return out
+
+
 def generate(tier, wd, rng, stats):
     cases = []
     cov = stats["coverage"]
@@ -218,7 +281,12 @@ def generate(tier, wd, rng, stats):
         stats["states"] += r.distinct
         stats["transitions"] += g.n_edges
         stats["graph_edges"] += g.n_edges
-        paths = g.covering_paths(extend=3 if tier == "quick" else 6, rng=rng)
+        # transition cover; every covering path is followed by a distinguishing suffix, then by a few random steps
+        paths = []
+        for pth in g.covering_paths(extend=0, rng=rng):
+            pth = pth + probe(g, end_node(g, pth))
+            pth = pth + g_extend(g, end_node(g, pth), 2 if tier == "quick" else 5, rng)
+            paths.append(pth)
         nwalk, depth = (150, 14) if tier == "quick" else (3000, 30)
         paths += g.random_walks(nwalk, depth, rng)
         new = make_cases(paths, "g%d_" % ci, rng)
